@@ -281,6 +281,38 @@ Definition translate (aa : str) (s : str) (start : Z) (rc : bool) : str :=
   if rc then rev (convert minus_src cs seq)
   else convert plus_src cs seq.
 
+(** ---- the byte width of the k-mer indices (finding C12-4) ----
+    [KmerAlphabet.to_indices(ndarray)] allocates its result with
+    [numpy.zeros(size, dtype=get_array_type(size))], [size] = the NUMBER of k-mers, not the size of
+    the alphabet; [translate] then feeds [seq.tobytes()] to [bytes.translate].  From 256 codons on
+    the items are uint16 (from 65536 on uint32), so every index contributes 2 (4) bytes, low byte
+    first (numpy native order on the little-endian platforms the check runs on). *)
+Definition get_array_type_width (n : Z) : Z :=
+  if n <? 2 ^ 8 then 1 else if n <? 2 ^ 16 then 2 else if n <? 2 ^ 32 then 4 else 8.
+Fixpoint le_bytes (w : nat) (i : Z) : list Z :=
+  match w with O => [] | S w' => i mod 256 :: le_bytes w' (i / 256) end.
+(** [ndarray.tobytes()] of unsigned items of [w] bytes *)
+Definition tobytes (w : Z) (idx : list Z) : list Z := flat_map (le_bytes (Z.to_nat w)) idx.
+
+(** the window of [dna] that is translated; [fm] = with the minus-strand repair C12-1 *)
+Definition window (fm : bool) (s : str) (start : Z) (rc : bool) : str :=
+  let dna := if start =? 0 then s
+             else if fm && rc then slice_to s (Z.max (zlen s - start) 0) else slice_from s start in
+  let diff := zlen dna mod 3 in
+  if diff =? 0 then dna
+  else if fm && rc then slice_from dna diff else slice_to dna (- diff).
+
+(** [GeneticCode.translate] with the dtype of the index array made explicit.
+    [fd] = with repair C12-4 (dtype taken from the size of the codon alphabet, 66 words: uint8);
+    without it the dtype follows the number of codons as described above. *)
+Definition translate_w (fm fd : bool) (aa : str) (s : str) (start : Z) (rc : bool) : str :=
+  let seq := to_kmer_indices (window fm s start rc) in
+  let w := get_array_type_width (if fd then zlen codon_words else zlen seq) in
+  let bytes := tobytes w seq in
+  let cs := code_seq aa in
+  if rc then rev (convert minus_src cs bytes)
+  else convert plus_src cs bytes.
+
 (** new [GeneticCode.sixframes]: (strand, start, translation) for ("+","-") x range(3) *)
 Definition sixframes (aa : str) (s : str) : list (bool * Z * str) :=
   flat_map (fun rc => map (fun start => (rc, start, translate aa s start rc)) [0; 1; 2]) [false; true].
@@ -321,6 +353,8 @@ Definition sixframes_old (aa : str) (m : moltype) (s : str) : res (list str) :=
 Section StopHandling.
 Variable fix_empty : bool.
 Variable fix_aln : bool.
+(** [fix_dtype]: repair C12-4 in the translate call of new Sequence.get_translation *)
+Variable fix_dtype : bool.
 
 Definition degap (s : str) : str := filter (fun c => negb (c =? ch_gap)) s.
 Definition has_gap (s : str) : bool := memZ ch_gap s.
@@ -364,7 +398,7 @@ Definition has_char (c : Z) (s : str) : bool := memZ c s.
 (** new [Sequence.get_translation] *)
 Definition seq_get_translation_new (aa : str) (s : str) (incomplete_ok include_stop trim_stop : bool) : res str :=
   bind (if trim_stop then trim_stop_codon New aa s (negb incomplete_ok) else Ok s) (fun seq =>
-    let pep := translate aa seq 0 false in
+    let pep := translate_w true fix_dtype aa seq 0 false in
     if negb include_stop && has_char ch_star pep then Err E_Alpha
     else if negb incomplete_ok && (has_char ch_gap pep || has_char ch_X pep) then Err E_Alpha
     else Ok pep).
